@@ -6,7 +6,6 @@
 // two neighbours and the list head, so length <= 3 covers every link configuration they can
 // distinguish (first / middle / last / only): these are COMPLETE for the primitive.  The
 // whole-list operations (mark_self_and_append, Drop, Iter) are BOUNDED by list length <= 3.
-#![allow(dead_code, unused_imports, unused_variables)]
 use super::*;
 use crate::cc::verif_proofs as ccp;
 use crate::counter_marker::verif_proofs as cmp;
